@@ -13,11 +13,14 @@
     stmt_rewrites_exactly_globals stmt_rewritten_eq_freeGlobals stmt_rewriting_invertible
     stmt_bound_names_are_pythons class_body_rebinding_witness stmt_scopes_example
     stmt_xform_supported stmt_pipeline_roundtrip stmt_pipeline_faithful
+    leaves_in_order leaves_in_order_supported leavesS_in_order leavesS_in_order_supported
+    leaves_in_order_after_rewriting leaves_need_domain
 -/
 import Genshi.Lemmas.PyParseS5
 import Genshi.Lemmas.PyStmtSpec
 import Genshi.Lemmas.PyStmtUnxf
 import Genshi.Lemmas.PyStmtWF
+import Genshi.Lemmas.PyLeavesWF
 namespace Genshi.Props.C13
 open Genshi.Py Genshi.Gen
 
@@ -410,5 +413,61 @@ example : (pyParseS (genBody 0 (xformS exModule))).map unxfB = some exModule := 
 example : genBody 0 (xformS exModule) ≠ genBody 0 exModule := by decide +kernel
 example : ∃ lines, genModule (xformS exScopes) = some lines ∧ (pyParseS lines).map unxfB = some exScopes :=
   ⟨genBody 0 (xformS exScopes), rfl, rfl⟩
+
+/-! ### no token is dropped (independent of the reader `pyParse`)
+
+`leaves` / `leavesB` (`Model/PyLeaves.lean`) list the leaf tokens of a tree in source order: every
+identifier, literal, operator and node / clause keyword, no punctuation.  They are plain
+recursions over the tree that do not mention `gen`. -/
+
+/-- **Every leaf token is written, in order** (expressions): the identifiers (names, attribute
+    names, keyword-argument names, parameter names), literals, operators and clause keywords of the
+    tree form a subsequence of the tokens the generator writes — for every tree whose literals are
+    parser-made and that has no attribute access on an integer literal; nothing else is assumed
+    (operators outside the tables, unsupported nodes and helper nodes in odd places included). -/
+theorem leaves_in_order (e : PyExpr) (h : leafOK e = true) : (leaves e).Sublist (gen e) :=
+  leaves_sub e h
+
+/-- in particular for every supported expression -/
+theorem leaves_in_order_supported (e : PyExpr) (h : Supported e) : (leaves e).Sublist (gen e) :=
+  leaves_sub e (wf_leafOK e h.1)
+
+/-- **Every leaf token is written, in order** (statements): decorators, `def` / `class` names,
+    parameters with annotations and defaults, return annotation, bases and class keywords, targets,
+    imported names and aliases (component by component), clause keywords (`else`, `except`,
+    `finally`, `from`, `as`, `in`) and all leaves of the embedded expressions form a subsequence of
+    the tokens of the written lines, at every indentation — for all bodies without `global` and
+    `except E as name` (whose names the generator writes as string literals: rejected). -/
+theorem leavesS_in_order (ss : List PyStmt) (ind : Nat) (h : leafOKB ss = true) :
+    (leavesB ss).Sublist (lineToks (genBody ind ss)) :=
+  leavesB_sub ss ind h
+
+/-- in particular for every supported module body, on the lines the generator really returns -/
+theorem leavesS_in_order_supported (ss : List PyStmt) (h : SupportedS ss) :
+    ∃ lines, genModule ss = some lines ∧ (leavesB ss).Sublist (lineToks lines) :=
+  ⟨genBody 0 ss, by simp [genModule, wfsl_genOk ss h.1], leavesB_sub ss 0 (wfsl_leafOKB ss h.1)⟩
+
+/-- … and through the whole pipeline: the leaves of the *transformed* program (every original
+    identifier either as a name or as the string argument of its `_lookup_name` call) are in the
+    source that is compiled -/
+theorem leaves_in_order_after_rewriting (ss : List PyStmt) (h : SupportedS ss) :
+    ∃ lines, genModule (xformS ss) = some lines ∧ (leavesB (xformS ss)).Sublist (lineToks lines) :=
+  leavesS_in_order_supported _ (stmt_xform_supported ss h)
+
+/-- the boundary of the domain: for `(1).real` (written `1.real`, rejected by the compiler) and
+    `global x` (written `global 'x'`, rejected) the leaves are *not* all written -/
+theorem leaves_need_domain :
+    ¬ (leaves (.attribute (.const ⟨.int, ['1']⟩) cs!"real")).Sublist (gen (.attribute (.const ⟨.int, ['1']⟩) cs!"real"))
+    ∧ ¬ (leavesB [.global_ [['x']]]).Sublist (lineToks (genBody 0 [.global_ [['x']]])) := by
+  constructor <;> decide
+
+example : leaves exLambda =
+    [kw cs!"lambda", .name ['p'], .name ['q'], .num ['2'], .name ['r'], .name ['s'], .name ['t'],
+     .name ['i'], kw cs!"for", .name ['i'], kw cs!"in", .name ['q'], kw cs!"if", .name ['i']] := rfl
+example : leaves exCall = [.name ['f'], .name ['a'], .name ['b'], .name ['k'], .name cs!"not", .name ['x'],
+    .op cs!"==", .name ['y'], .num ['1']] := rfl
+example : leafOK exCall = true ∧ leafOK exLambda = true ∧ leafOKB exModule = true := by decide
+example : (leavesB exModule).length = 79 := rfl
+example : (leavesB exModule).Sublist (lineToks (genBody 0 exModule)) := leavesS_in_order _ 0 (by decide)
 
 end Genshi.Props.C13
